@@ -24,7 +24,10 @@ X == <<120>>
 NsChoices == {<<>>, U1, U2, XHTML}
 AtNo == [k |-> A, ns |-> <<>>, local |-> A, v |-> X, list |-> FALSE]
 AtNs(px, uri) == [k |-> px \o <<58>> \o A, ns |-> uri, local |-> A, v |-> X, list |-> FALSE]
-AttrChoices == {<<>>, <<AtNo>>, <<AtNs(P, U1)>>, <<AtNs(P, U2)>>, <<AtNs(DP, U1)>>, <<AtNo, AtNs(Q, U2)>>,
+Y == <<121>>
+AtNoY == [k |-> A, ns |-> <<>>, local |-> A, v |-> Y, list |-> FALSE]
+AttrChoices == {<<AtNoY, AtNs(Q, U2)>>, <<AtNs(Q, U2), AtNoY>>, <<AtNs(P, U1), AtNoY, AtNs(Q, U2)>>,      \* the same local name with DIFFERENT values
+                <<>>, <<AtNo>>, <<AtNs(P, U1)>>, <<AtNs(P, U2)>>, <<AtNs(DP, U1)>>, <<AtNo, AtNs(Q, U2)>>,
                 <<AtNs(P, U1), AtNs(Q, U2)>>, <<AtNs(Q, U2), AtNs(P, U1)>>, <<AtNs(DP, U2), AtNs(Q, U1), AtNo>>}
 
 Map(seq) == seq
@@ -63,7 +66,10 @@ Forms2 == {Cx2(<<[k |-> "first-of-type"]>>, ">", <<TypeS(NsA, E)>>), Cx2(<<[k |-
            Cx1(<<TypeS(NsA, Star), [k |-> "nth", a |-> 0, b |-> 1, last |-> FALSE, oftype |-> FALSE, of |-> <<Cx1(<<AttrS(NsA)>>), Cx1(<<AttrU(NsA)>>)>>]>>),
            Cx1(<<TypeS(NsA, Star), [k |-> "has", args |-> <<[comb |-> ">", cx |-> Cx1(<<AttrS(NsA)>>)], [comb |-> " ", cx |-> Cx1(<<AttrU(NsA)>>)]>>]>>),
            Cx1(<<[k |-> "nth", a |-> 0, b |-> 2, last |-> FALSE, oftype |-> FALSE, of |-> <<>>]>>)}
-PoolSet == {[sel |-> <<f>>, ns |-> m] : f \in Forms \cup Forms2, m \in Maps}
+\* value operators under *|: some attribute of that local name has the value, whatever the order of the attributes
+AttrV(ns, op, v) == [k |-> "attr", ns |-> ns, name |-> A, op |-> op, val |-> v, flag |-> "n"]
+Forms3 == {Cx1(<<AttrV(ns, op, v)>>) : ns \in {NsA, NsB, NsP(Q)}, op \in {"eq", "ne", "pre"}, v \in {X, Y}}
+PoolSet == {[sel |-> <<f>>, ns |-> m] : f \in Forms \cup Forms2 \cup Forms3, m \in Maps}
 Pool == SetToSeq(PoolSet)
 ASSUME PrintT(ToJson([pool |-> Pool]))
 
